@@ -2,6 +2,8 @@
   C04 — no program can corrupt or crash the simulator (property theorems).
 -/
 import Gmars.Model.Sim
+import Gmars.Proofs.WFExec
+import Gmars.Proofs.SpecLocal
 
 namespace Gmars.Props.C04
 open Gmars
@@ -31,6 +33,31 @@ theorem validate_total (c : Config) :
     intro i hi
     simp [Array.mem_replicate] at hi
     rw [hi.2]; exact ⟨rfl, rfl⟩
+
+/-- `wf_preserved` for one executed task: whatever instruction is at `pc` and whatever the core
+    holds, executing it never panics, keeps the core size, keeps every instruction field below the
+    core size, keeps the executing warrior's queue a well-formed ring of the same capacity whose
+    entries are all below the core size, leaves every other warrior and all counters untouched, and
+    only emits reports with addresses inside the core. No bound on the core size and none on the
+    read/write limits beyond ≥ 1 (`Validate` accepts limits above the core size). -/
+theorem exec_preserves_invariant (s : Sim) (pc : UInt64) (wi : Nat) (q : PQ) (hwf : s.WF)
+    (hpc : pc < s.m) (hq : s.pqOf wi = some q) :
+    ∃ s' q', s.exec pc wi = .ok s' ∧ Frame s s' wi ∧ s'.FieldsOK ∧
+      s'.pqOf wi = some q' ∧ q'.Inv ∧ q'.size = q.size ∧ (∀ a ∈ q'.toList, a < s.m) ∧
+      q'.toList.length ≤ q.toList.length + 2 ∧
+      (∀ r, r ∈ s'.log.toList.drop s.log.size → r.addr < s.m ∧ r.wi = Int.ofNat wi) :=
+  exec_wf s pc wi q hwf hpc hq
+
+/-- the host never panics while executing a task -/
+theorem exec_never_panics (s : Sim) (pc : UInt64) (wi : Nat) (q : PQ) (hwf : s.WF) (hpc : pc < s.m)
+    (hq : s.pqOf wi = some q) : ∃ s', s.exec pc wi = .ok s' :=
+  exec_no_panic s pc wi q hwf hpc hq
+
+/-- reference semantics: every field of every instruction stays below the core size -/
+theorem reference_fields_bounded (M R W : Nat) (c : Spec.Core) (pc : Nat)
+    (h : ∀ a, (c.at a).a < M ∧ (c.at a).b < M) :
+    ∀ a, ((Spec.step M R W c pc).core.at a).a < M ∧ ((Spec.step M R W c pc).core.at a).b < M :=
+  Spec.step_fields M R W c pc h
 
 -- non-vacuity: the KOTH '94 configuration is accepted, a two-cell core is refused
 example : (Sim.new (Config.quick .icws94 8000 8000 80000 100)).isSome = true := by decide
